@@ -211,6 +211,19 @@ PURE_EXTERNAL = {
     "itertools.product": lambda *a, **k: __import__("itertools").product(*a, **k),
     "itertools.count": lambda *a: __import__("itertools").count(*a),
     "itertools.zip_longest": lambda *a, **k: __import__("itertools").zip_longest(*a, **k),
+    "itertools.groupby": lambda it, key=None: [(k_, list(g_)) for k_, g_ in __import__("itertools").groupby(it, key)],
+    "itertools.accumulate": lambda *a, **k: __import__("itertools").accumulate(*a, **k),
+    "itertools.starmap": lambda f_, it: __import__("itertools").starmap(f_, it),
+    "itertools.takewhile": lambda f_, it: __import__("itertools").takewhile(f_, it),
+    "itertools.dropwhile": lambda f_, it: __import__("itertools").dropwhile(f_, it),
+    "itertools.filterfalse": lambda f_, it: __import__("itertools").filterfalse(f_, it),
+    "itertools.compress": lambda *a: __import__("itertools").compress(*a),
+    "itertools.pairwise": lambda it: __import__("itertools").pairwise(it),
+    "itertools.combinations": lambda *a: __import__("itertools").combinations(*a),
+    "itertools.permutations": lambda *a: __import__("itertools").permutations(*a),
+    "itertools.tee": lambda *a: __import__("itertools").tee(*a),
+    "itertools.batched": lambda it, n_: __import__("itertools").batched(it, n_),
+    "functools.reduce": lambda *a: __import__("functools").reduce(*a),
     "xml.etree.ElementTree.fromstring": lambda s_, *a, **k: __import__("xml.etree.ElementTree").etree.ElementTree.fromstring(s_),
     "time.perf_counter": lambda: 0.0, "time.monotonic": lambda: 0.0, "time.time": lambda: 0.0, "time.process_time": lambda: 0.0,
     "fnmatch.filter": lambda names, pat: __import__("fnmatch").filter(list(names), pat),
@@ -1454,6 +1467,9 @@ class PureInterp:
                 return ("memodeco", ms)
             if name in PURE_EXTERNAL:
                 try:
+                    if name.startswith(("itertools.", "functools.reduce")):
+                        args = [self._pycallable(a_, depth) for a_ in args]
+                        kwargs = {k_: self._pycallable(v_, depth) for k_, v_ in kwargs.items()}
                     return PURE_EXTERNAL[name](*args, **kwargs)
                 except (TypeError, ValueError) as exc:
                     raise Raised(type(exc).__name__, str(exc))
